@@ -14,6 +14,9 @@ use crate::vm::state::{MAGICAL_DUMP_VAR, State};
 use crate::{Context, Tera};
 
 const MAX_COMPONENT_RECURSION_DEPTH: usize = 20;
+/// A single template cannot nest blocks deeper than the parser's nesting limit (40); only blocks
+/// rendering each other in a loop through inheritance get past this.
+const MAX_BLOCK_NESTING_DEPTH: usize = 40;
 
 pub(crate) struct VirtualMachine<'tera> {
     tera: &'tera Tera,
@@ -577,6 +580,13 @@ impl<'tera> VirtualMachine<'tera> {
                             block_name, self.template.name
                         )));
                     };
+                    if state.blocks.len() >= MAX_BLOCK_NESTING_DEPTH {
+                        return Err(Error::message(format!(
+                            "Maximum block nesting depth exceeded while rendering block '{}' \
+                            in template '{}': blocks are likely rendering each other recursively.",
+                            block_name, self.template.name
+                        )));
+                    }
                     let block_chunk = &block_lineage[0];
                     let old_chunk = state.chunk.replace(block_chunk);
                     state.blocks.push((block_name, block_lineage, 0));
